@@ -1,2 +1,4 @@
-void h_skc(void) { GrothSKC *self; size_t n; ios_t *in; unsigned long l, f, s; GrothSKC__ctor_stream(self, n, in, l, f, s); }
-void h_vsshe(void) { GrothVSSHE *self; size_t n; ios_t *in; unsigned long l, f, s; GrothVSSHE__ctor_stream(self, n, in, l, f, s); }
+void h_skc(void) { GrothSKC *self; size_t n; ios_t *in; unsigned long l, f, s; GrothSKC__ctor_stream(self, n, in, l, f, s);
+  __CPROVER_assert(__tmcg_thrown != 0, "REACHABILITY-CANARY (must fail): a construction without exception exists"); }
+void h_vsshe(void) { GrothVSSHE *self; size_t n; ios_t *in; unsigned long l, f, s; GrothVSSHE__ctor_stream(self, n, in, l, f, s);
+  __CPROVER_assert(__tmcg_thrown != 0, "REACHABILITY-CANARY (must fail): a construction without exception exists"); }
